@@ -12,15 +12,19 @@ TECHNIQUE = ("Coq refinement theorem between a Gallina transcription of every ha
 LEVEL_TEXT = ("Theorems over all states, requests and backend answer tapes (hence all histories): the model's reply class and fid bindings "
               "follow the session specification; read off: EBADF on unbound fids, clunk/remove always unbind, newfid bound only on success, "
               "I/O needs a compatible open mode, open once / openable types / directories read-only, opened-directory refusals, no auth. "
+              "'A fid opens at most once' also for requests in flight together: any number of Tlopen on one fid, every interleaving (Server/OpenPar.v, C04_open_once_interleaved; "
+              "refuted for the check-then-lock order; the lock position is read from the source). "
               "Every run re-checks the proofs, regenerates the handler summaries from the Go source and compares model and real server on generated histories.")
 LEVEL_NOTE = ("Trusted: Coq kernel + vm_compute; the hand model Server/{State,Msg,Handlers}.v is tied to the Go code by HandlerGen.v "
-              "(guards, errnos, name checks, lookups, backend calls read from the syntax) and by the differential only. Sequential histories; "
-              "in-flight overlap is C05/C07. The literal parts of Server/Summaries.v model_traces are a hand-reviewed transcript of the alpha-normalised "
+              "(guards, errnos, name checks, lookups, backend calls read from the syntax) and by the differential only. Sequential histories, except the open-once clause: "
+              "Server/OpenPar.v is a separate small interleaving model of tlopen.handle's critical section (hand-written; tied by the source obligation tlopen_locks_before_guards and by "
+              "overlapped Tlopen pairs on the real server with a gated File.Open, judged by par_agrees/par_ok); other in-flight overlap is C05/C07. The literal parts of Server/Summaries.v model_traces are a hand-reviewed transcript of the alpha-normalised "
               "source traces (only the guard sequences are rendered from the model's guard table); a rename of a local variable does not change the tables. "
               "The whole-request refinement C04_refines holds for every request kind under Inv2 (ledger, injective fid table, path-tree structure), proved for every history.")
 DESIGN_REF = "6/C04"
 ASSUMPTIONS = [
-    "requests are handled one at a time (lock-step); overlapping requests are C05/C07",
+    "requests are handled one at a time (lock-step), except overlapping Tlopen on one fid (OpenPar.v); other overlapping requests are C05/C07",
+    "sync.Mutex provides mutual exclusion (OpenPar.v models openMu as a boolean)",
     "B1: a successful Walk/WalkGetAttr/Create/Attach returns a File not returned before (the scripted backend does)",
     "B2: RenameAt never succeeds into the moved entry's own subtree (the generator never asks for it)",
 ]
@@ -28,7 +32,8 @@ TRUSTED_BASE = [
     "Coq 8.16.1 kernel, vm_compute (cases evaluation, generated-table checks)",
     "axioms: none",
     "go2coq HandlerGen + ConstGen",
-    "hand-written model Server/State.v, Msg.v, Handlers.v; harness/p9/vhsrv_*_test.go (scripted backend, lock-step peer), c04_hist_test.go",
+    "hand-written model Server/State.v, Msg.v, Handlers.v, OpenPar.v; harness/p9/vhsrv_*_test.go (scripted backend, lock-step peer, gate), c04_hist_test.go",
+    "lib/vsrv.py (python translation of observed histories / overlaps into Coq cases)",
 ]
 WHICH = "P04"
 TEST = "^TestVerifC04$"
@@ -45,12 +50,19 @@ def run(ctx):
         if h.get("broken"):
             ctx.harness_broken("history %s: the server stopped answering (%s)" % (h["id"], h["broken"]), str(h["steps"][-1:])[:1500])
     good = [h for h in hists if h["steps"]]
-    nm, nf = vsrv.evaluate(ctx, ID + "_cases", good, WHICH)
+    pars = [h for h in obs if h.get("kind") == "par"]
+    for h in pars:
+        if not h.get("gated"):
+            ctx.harness_broken("overlap %s: the first Tlopen never reached the gated File.Open (or the server stopped answering)" % h.get("id"), str(h)[:1500])
+    pars = [h for h in pars if h.get("gated")]
+    nm, nf = vsrv.evaluate(ctx, ID + "_cases", good + pars, WHICH)
     st, distinct = vsrv.stats(good)
+    st["overlaps"] = len(pars)
     ctx.coverage.update({
         "evaluations": st["steps"],
         "distinct_nontrivial": distinct,
-        "rule": "fixed boundary histories + generated histories (20-60 requests, two connections, small fid/name alphabet, fid re-use, clunked fids, "
+        "rule": "fixed boundary histories (incl. Tlopen on fids of every recorded type: xattr fid, mode without type bits, unknown type, symlink, socket, fifo, devices) + 4 overlapped Tlopen pairs "
+                "(second sent while the first is inside the gated File.Open; first Open succeeding / failing) + generated histories (20-60 requests, two connections, small fid/name alphabet, fid re-use, clunked fids, "
                 "xattr read/write, Tauth, auth-fid attach, every request type, hostile names); " + vsrv.DISTINCT_RULE,
         "correspondence": {"cases": st["steps"], "mismatches": nm, "property_failures": nf, "distribution": st},
         "samples": vsrv.samples(good),
